@@ -64,6 +64,29 @@ public:
     while (!pred())
       wait(lk);
   }
+  // timed waits: under the scheduler a time-out can fire at any moment (the wake-up is always
+  // enabled), which is exactly the set of behaviours a real time-out admits
+  std::cv_status wait_timed(std::unique_lock<wv_mutex> &lk);
+  template <class R, class Pd>
+  std::cv_status wait_for(std::unique_lock<wv_mutex> &lk, const std::chrono::duration<R, Pd> &) { return wait_timed(lk); }
+  template <class C, class D>
+  std::cv_status wait_until(std::unique_lock<wv_mutex> &lk, const std::chrono::time_point<C, D> &) { return wait_timed(lk); }
+  template <class R, class Pd, class P>
+  bool wait_for(std::unique_lock<wv_mutex> &lk, const std::chrono::duration<R, Pd> &, P pred)
+  {
+    while (!pred())
+      if (wait_timed(lk) == std::cv_status::timeout)
+        return pred();
+    return true;
+  }
+  template <class C, class D, class P>
+  bool wait_until(std::unique_lock<wv_mutex> &lk, const std::chrono::time_point<C, D> &, P pred)
+  {
+    while (!pred())
+      if (wait_timed(lk) == std::cv_status::timeout)
+        return pred();
+    return true;
+  }
   void notify_all() noexcept;
   void notify_one() noexcept;
 };
